@@ -1,6 +1,7 @@
 import PvModel.Generated.Src
 import PvModel.Lemmas.PyLemmas
 import PvModel.Multi
+import PvModel.Props.R10
 /-!
 # R20 — refinement: `Multitask.__check_input__` *as the source reads now* is the model's `checkInput`
 (the broadcasting of `modes` in its four documented shapes, in the order the source tests them — which is what decides the
@@ -167,5 +168,159 @@ theorem get_mode_eq (modes : Option (List (List String))) (i j : Nat) : Src.get_
       | some s0 =>
         simp only [except_ok_bind, bind_pure, Multi.parseMode]
         cases Mode.ofString s0 <;> rfl
+
+
+/-! ## `execute`, `__parallelize__`, `__run__`: the loops as the source reads now are the model's `executeFrom`
+
+An optimizer / task object is its position in the constructor's list and its name (`Multi.Obj`); the call
+`optimizer.optimize(task, mode=str(mode), workers=self._n_workers)` made in the worker process of trial `t` is an opaque function of those objects,
+the mode string, the workers argument and `t`.  Trial numbers are Python ints in the translation and naturals in the model. -/
+
+/-- the model's `run` behind an opaque `optimize` -/
+def runOf {ρ : Type} (optimize : Obj → Obj → String → Option Int → Int → ρ) (c : Multi.Call) : ρ :=
+  optimize ⟨c.alg, c.algName⟩ ⟨c.task, c.taskName⟩ c.mode.toString (c.workers.map Int.ofNat) (c.trial : Int)
+
+/-- a model cell as the dict `__run__` builds -/
+def toRunDict {ρ : Type} (c : Cell ρ) : RunDict ρ := ⟨(c.idTrial : Int), c.solution, c.problemName⟩
+
+/-- a model table as the dict of columns handed to `pd.DataFrame` -/
+def toDict {ρ : Type} (t : Table ρ) : List (String × List (RunDict ρ)) := t.map (fun kv => (kv.1, kv.2.map toRunDict))
+
+/-- `enumerate(l)` counting from `k` -/
+def enumFrom {α : Type} (k : Nat) (l : List α) : List (Nat × α) := (List.range' k l.length).zip l
+
+theorem enumerate_eq {α : Type} (l : List α) : Py.enumerate l = enumFrom 0 l := by
+  simp [Py.enumerate, enumFrom, List.range_eq_range']
+
+theorem enumFrom_cons {α : Type} (k : Nat) (x : α) (xs : List α) : enumFrom k (x :: xs) = (k, x) :: enumFrom (k + 1) xs := by
+  simp [enumFrom, List.range'_succ]
+
+/-- the objects of a list of names -/
+def objsFrom (k : Nat) (names : List String) : List Obj := (enumFrom k names).map (fun p => ⟨p.1, p.2⟩)
+
+theorem parallelize_eq {ρ : Type} (optimize : Obj → Obj → String → Option Int → Int → ρ) (dbg : Bool) (w : Option Int) (o t : Obj) (m : Multi.Mode) (trials : List Int) :
+    Src.multitask_parallelize optimize dbg w o t m () trials = .ok (trials.map (fun x => Src.multitask_run optimize w x o t m)) := by
+  unfold Src.multitask_parallelize Src.multitask_debug_results
+  simp
+  show Except.ok _ = Except.ok _
+  congr 1
+  exact R10.flatten_map_singleton _ _
+
+
+theorem objsFrom_cons (k : Nat) (x : String) (xs : List String) : objsFrom k (x :: xs) = ⟨k, x⟩ :: objsFrom (k + 1) xs := by
+  simp [objsFrom, enumFrom_cons]
+
+theorem objsFrom_length (k : Nat) (xs : List String) : (objsFrom k xs).length = xs.length := by
+  simp [objsFrom, enumFrom]
+
+/-- `d[k] = v` on the association list of the translation and on the model's agree (both replace in place or append) -/
+theorem dictSet_toDict {ρ : Type} (d : Table ρ) (k : String) (cells : List (Cell ρ)) :
+    Py.dictSet (toDict d) k (cells.map toRunDict) = toDict (Multi.dictSet d k cells) := by
+  induction d with
+  | nil => rfl
+  | cons kv rest ih =>
+    obtain ⟨k', v'⟩ := kv
+    simp only [toDict, List.map_cons, Py.dictSet, Multi.dictSet] at ih ⊢
+    by_cases h : k' = k
+    · subst h; simp
+    · simp [h, ih]
+
+/-- the trials of one (algorithm, task) pair: `executor.map(partial(self.__run__, …), trial_list)` is the model's list of cells -/
+theorem cells_eq {ρ : Type} (optimize : Obj → Obj → String → Option Int → Int → ρ) (w : Option Nat) (n i j : Nat) (an tn : String) (md : Multi.Mode) :
+    List.map (fun x => Src.multitask_run optimize (Option.map Int.ofNat w) x ⟨i, an⟩ ⟨j, tn⟩ md) (Py.range 1 ((n : Int) + 1))
+      = (((trialList n).map (fun t => Multi.Call.mk i j an tn md w t)).map (fun c => Cell.mk c.trial (runOf optimize c) tn)).map toRunDict := by
+  have hr : Py.range 1 ((n : Int) + 1) = (List.range n).map (fun (k : Nat) => (1 : Int) + (k : Int)) := by
+    simp [Py.range]
+  rw [hr]
+  simp only [trialList, List.map_map]
+  apply List.map_congr_left
+  intro k _
+  simp only [Function.comp, Src.multitask_run, toRunDict, runOf, Id.run, pure, bind]
+  have : ((1 : Int) + (k : Int)) = ((k + 1 : Nat) : Int) := by omega
+  rw [this]
+
+theorem tasks_loop_eq {ρ : Type} (optimize : Obj → Obj → String → Option Int → Int → ρ) (modes : Option (List (List String))) (w : Option Nat) (n i : Nat) (an : String)
+    (j : Nat) (tns : List String) (d : Table ρ) (log : List Multi.Call) :
+    forIn (enumFrom j (objsFrom j tns)) (toDict d) (fun x_1 __s => (do
+        let m ← Src.get_mode modes i x_1.fst
+        let r ← Except.ok (List.map (fun x_2 => Src.multitask_run optimize (Option.map Int.ofNat w) x_2 ⟨i, an⟩ x_1.snd m) (Py.range 1 ((n : Int) + 1)))
+        pure (ForInStep.yield (Py.dictSet __s (an ++ "_" ++ x_1.snd.name) r)) : Except Err _))
+      = (tasksLoop (runOf optimize) modes w (trialList n) i an j tns (d, log)).map (fun r => toDict r.1) := by
+  induction tns generalizing j d log with
+  | nil => simp [objsFrom, enumFrom, tasksLoop, Except.map]; rfl
+  | cons tn rest ih =>
+    rw [objsFrom_cons, enumFrom_cons, List.forIn_cons]
+    dsimp only
+    rw [get_mode_eq]
+    simp only [tasksLoop]
+    cases hm : getMode modes i j with
+    | error e => rfl
+    | ok md =>
+      simp only [except_ok_bind]
+      rw [cells_eq, dictSet_toDict]
+      simp only [pure, Except.pure, except_ok_bind]
+      exact ih (j + 1) _ _
+
+theorem algs_loop_eq {ρ : Type} (optimize : Obj → Obj → String → Option Int → Int → ρ) (modes : Option (List (List String))) (w : Option Nat) (n : Nat)
+    (tasks : List String) (i : Nat) (ans : List String) (df2 : List (Table ρ)) (log : List Multi.Call) :
+    forIn (enumFrom i (objsFrom i ans)) (df2.map toDict) (fun x __s => (do
+        let __s_1 ← forIn (Py.enumerate (objsFrom 0 tasks)) [] (fun x_1 __s => (do
+            let m ← Src.get_mode modes x.fst x_1.fst
+            let r ← Except.ok (List.map (fun x_2 => Src.multitask_run optimize (Option.map Int.ofNat w) x_2 x.snd x_1.snd m) (Py.range 1 ((n : Int) + 1)))
+            pure (ForInStep.yield (Py.dictSet __s (x.snd.name ++ "_" ++ x_1.snd.name) r)) : Except Err _))
+        pure (ForInStep.yield (__s ++ [__s_1])) : Except Err _))
+      = (algsLoop (runOf optimize) modes w (trialList n) tasks i ans (df2, log)).map (fun st => st.1.map toDict) := by
+  induction ans generalizing i df2 log with
+  | nil => simp [objsFrom, enumFrom, algsLoop, Except.map]; rfl
+  | cons an rest ih =>
+    rw [objsFrom_cons, enumFrom_cons, List.forIn_cons]
+    dsimp only
+    rw [enumerate_eq]
+    have ht := tasks_loop_eq optimize modes w n i an 0 tasks [] log
+    simp only [toDict, List.map_nil] at ht
+    rw [ht]
+    simp only [algsLoop]
+    cases hl : tasksLoop (runOf optimize) modes w (trialList n) i an 0 tasks ([], log) with
+    | error e => rfl
+    | ok r =>
+      obtain ⟨d, log'⟩ := r
+      simp only [Except.map, except_ok_bind, pure, Except.pure]
+      have := ih (i + 1) (df2 ++ [d]) log'
+      simp only [List.map_append, List.map_cons, List.map_nil, enumerate_eq] at this
+      exact this
+
+theorem execute_eq {ρ : Type} (optimize : Obj → Obj → String → Option Int → Int → ρ) (modes : Option (List (List String))) (w : Option Nat)
+    (algs tasks : List String) (n : Nat) (prior : List (Table ρ)) (dbg0 dbg : Bool) (jobs : Int) :
+    Src.multitask_execute optimize (objsFrom 0 algs) (objsFrom 0 tasks) modes (w.map Int.ofNat) dbg0 (prior.map toDict) (n : Int) jobs dbg
+      = (executeFrom (runOf optimize) modes w algs tasks n prior).map (fun st => (dbg, st.1.map toDict)) := by
+  unfold Src.multitask_execute
+  simp only [parallelize_eq]
+  rw [enumerate_eq (objsFrom 0 algs)]
+  have h := algs_loop_eq optimize modes w n tasks 0 algs prior []
+  rw [h]
+  unfold executeFrom
+  cases algsLoop (runOf optimize) modes w (trialList n) tasks 0 algs (prior, []) with
+  | error e => rfl
+  | ok st => rfl
+
+
+/-- on a fresh instance (`_df2 = []`): the tables of the model's `execute` -/
+theorem execute_fresh_eq {ρ : Type} (optimize : Obj → Obj → String → Option Int → Int → ρ) (modes : Option (List (List String))) (w : Option Nat)
+    (algs tasks : List String) (n : Nat) (dbg0 dbg : Bool) (jobs : Int) :
+    Src.multitask_execute optimize (objsFrom 0 algs) (objsFrom 0 tasks) modes (w.map Int.ofNat) dbg0 [] (n : Int) jobs dbg
+      = (Multi.execute (runOf optimize) modes w algs tasks n).map (fun st => (dbg, st.1.map toDict)) := by
+  have := execute_eq optimize modes w algs tasks n [] dbg0 dbg jobs
+  simpa [Multi.execute] using this
+
+/-- the debug flag and the number of jobs change no table (they only print / size the pool of trial processes) -/
+theorem execute_debug_jobs_irrelevant {ρ : Type} (optimize : Obj → Obj → String → Option Int → Int → ρ) (modes : Option (List (List String))) (w : Option Nat)
+    (algs tasks : List String) (n : Nat) (prior : List (Table ρ)) (d0 d0' d d' : Bool) (jobs jobs' : Int) :
+    (Src.multitask_execute optimize (objsFrom 0 algs) (objsFrom 0 tasks) modes (w.map Int.ofNat) d0 (prior.map toDict) (n : Int) jobs d).map (·.2)
+      = (Src.multitask_execute optimize (objsFrom 0 algs) (objsFrom 0 tasks) modes (w.map Int.ofNat) d0' (prior.map toDict) (n : Int) jobs' d').map (·.2) := by
+  rw [execute_eq, execute_eq]
+  cases executeFrom (runOf optimize) modes w algs tasks n prior <;> rfl
+
+example : (Src.multitask_execute (fun o t m _ k => (o.idx, t.idx, m, k)) (objsFrom 0 ["A", "B"]) (objsFrom 0 ["t"]) none none false [] 2 2 true).map (fun r => r.2.length) = .ok 2 := by
+  decide
 
 end R20
